@@ -56,8 +56,27 @@ pub struct ErrDesc {
     pub text: String,
 }
 
+/// Finds the injected fault anywhere in the error's source chain (an error that wraps the
+/// original one still carries it).
+fn find_sim_fault(e: &(dyn std::error::Error + 'static), depth: usize) -> Option<u64> {
+    if let Some(f) = e.downcast_ref::<SimFault>() {
+        return Some(f.k);
+    }
+    if depth > 8 {
+        return None;
+    }
+    if let Some(io) = e.downcast_ref::<io::Error>() {
+        if let Some(inner) = io.get_ref() {
+            if let Some(k) = find_sim_fault(inner, depth + 1) {
+                return Some(k);
+            }
+        }
+    }
+    e.source().and_then(|s| find_sim_fault(s, depth + 1))
+}
+
 pub fn desc_io(e: &io::Error, class: &'static str) -> ErrDesc {
-    let sim_k = e.get_ref().and_then(|r| r.downcast_ref::<SimFault>()).map(|f| f.k);
+    let sim_k = e.get_ref().and_then(|r| find_sim_fault(r, 0));
     let crash = e.get_ref().map(|r| r.is::<crate::env::SimCrash>()).unwrap_or(false);
     ErrDesc { class, io_kind: Some(e.kind()), sim_k, merge_k: None, crash, text: e.to_string() }
 }
@@ -464,8 +483,47 @@ pub fn file_bytes_for(spec: &FileSpec, v1: bool) -> Result<Vec<u8>, String> {
     }
 }
 
+/// Moves the root index block (and the trailer) behind a hole: returns (bytes, hole offset) with the
+/// trailer's root offset rewritten; None if the file has no room for that (too short).
+pub fn make_sparse(bytes: &[u8], hole: u64) -> Option<(Vec<u8>, u64)> {
+    let t = crate::decode::parse_trailer(bytes).ok()?;
+    let root = t.root_off;
+    let tl = t.len;
+    if (root as usize) + tl > bytes.len() {
+        return None;
+    }
+    let mut out = bytes.to_vec();
+    let pos = out.len() - tl;
+    out[pos..pos + 8].copy_from_slice(&(root + hole).to_le_bytes());
+    Some((out, root))
+}
+
+pub fn open_cursor_sparse(tx: &mut Tx, bytes: Vec<u8>, hole: Option<u64>) -> Option<ReaderCursor<SimFile>> {
+    let Some(h) = hole else { return open_cursor(tx, bytes) };
+    let Some((b, at)) = make_sparse(&bytes, h) else { return open_cursor(tx, bytes) };
+    let src = tx.env.new_sparse_source(b, at, h);
+    let r = tx.call("Reader::new", move || match Reader::new(src) {
+        Ok(r) => {
+            let meta = Res::Meta {
+                len: r.len(),
+                codec: codec_id(r.compression_type()),
+                version: match r.file_version() {
+                    FileVersion::FormatV1 => 0,
+                    FileVersion::FormatV2 => 1,
+                },
+            };
+            Ok((r, meta))
+        }
+        Err(e) => Err(desc_err(&e)),
+    })?;
+    tx.call("Reader::into_cursor", move || match r.into_cursor() {
+        Ok(c) => Ok((c, Res::Unit)),
+        Err(e) => Err(desc_err(&e)),
+    })
+}
+
 pub fn exec_cursor(tx: &mut Tx, case: &CursorCase, bytes: Vec<u8>, fp: &mut dyn FnMut(usize, &Op, &ReaderCursor<SimFile>)) {
-    let Some(c0) = open_cursor(tx, bytes) else { return };
+    let Some(c0) = open_cursor_sparse(tx, bytes, case.sparse_hole) else { return };
     let mut cursors: Vec<ReaderCursor<SimFile>> = vec![c0];
     for (i, st) in case.steps.iter().enumerate() {
         let idx = st.cur as usize % cursors.len();
